@@ -12,7 +12,7 @@
 From WM Require Import Base.Prelude Message.Model Handler.RouterHandle Handler.RouterProofs
      GoChannel.Reg GoChannel.RegSend GoChannel.Sub GoChannel.SubProofs
      Pipeline.TopicModel Pipeline.TopicRefine
-     Pipeline.Model Pipeline.Proofs Pipeline.Final Pipeline.SubLink Pipeline.ImmModel Pipeline.ImmProofs
+     Pipeline.Model Pipeline.Proofs Pipeline.Final Pipeline.SubLink Pipeline.ImmModel Pipeline.ImmProofs Pipeline.CtxModel Pipeline.CtxProofs GoChannel.SubCtx
      Corr.C01 Pipeline.Example.
 
 Section C01.
@@ -87,6 +87,20 @@ Section C01.
           /\ sink_complete hf eqbM k srcs (topic st k) = true).
   Proof. exact (at_least_once_imm hf eqbM eqbM_spec). Qed.
 
+  (** context-aware handlers (a handler fails when the context of its copy is already done at
+      entry - what handlers with I/O or a Timeout middleware do): the pipeline under the context
+      oracle [cl] is the pipeline under the script [sc_ctx cl sc]; at least once holds when the
+      script is eventually fault-free and the delivery contexts are (eventually) live *)
+  Theorem C01_at_least_once_context_aware : forall k cl sc srcs ls, eventually_clean k sc ->
+    (exists B, forall s c, s < k -> B <= c -> cl s c = true) ->
+    let st := prun hf eqbM rt_handle k (sc_ctx cl sc) (pinit srcs) ls in
+    Acc (psucc hf eqbM rt_handle k (sc_ctx cl sc)) st
+    /\ (quiescentb k st = false -> exists l, pstep hf eqbM rt_handle k (sc_ctx cl sc) st l <> None)
+    /\ (quiescentb k st = true ->
+          (forall y, In y (expected_sink hf k srcs) -> In y (topic st k))
+          /\ sink_complete hf eqbM k srcs (topic st k) = true).
+  Proof. exact (at_least_once_ctx hf eqbM eqbM_spec). Qed.
+
   (** never lost: at every moment every expected arrival is at the final topic or has a
       pending ancestor at some topic *)
   Theorem C01_never_lost : forall k sc srcs ls,
@@ -139,6 +153,24 @@ Section C01.
     /\ (quiescentb k st = true -> redelivery_ok eqbM (dlog st) = true).
   Proof. exact (model_accepted hf eqbM eqbM_spec). Qed.
 End C01.
+
+(** GoChannel delivers EVERY copy - redeliveries included - with a live context (C04), so for
+    GoChannel the oracle is constantly true and a context-aware pipeline is the pipeline; a stage
+    whose redeliveries kept arriving with a dead context would be a fault that never stops *)
+Theorem C01_delivery_context_is_live : forall cap0 fx ls, let s := srun (sinit cap0 fx) ls in
+  (forall t p c s', Sub.thr s t = SSend p c -> sstep s (LHandoff t) = Some s' ->
+     ctx_live s c = true /\ ctx_live s' c = true)
+  /\ (forall c b s', buf s = c :: b -> closing s = false -> sstep s LRecv = Some s' ->
+     ctx_live s c = true /\ ctx_live s' c = true).
+Proof. exact delivery_ctx_live. Qed.
+
+Theorem C01_live_contexts_change_nothing : forall cl sc, (forall s c, cl s c = true) ->
+  forall s c, sc_ctx cl sc s c = sc s c.
+Proof. exact sc_ctx_live. Qed.
+
+Theorem C01_dead_contexts_never_stop : forall k cl sc s, s < k ->
+  (forall B, exists c, B <= c /\ cl s c = false) -> ~ eventually_clean k (sc_ctx cl sc).
+Proof. exact dead_contexts_never_clean. Qed.
 
 (** the fairness hypothesis is satisfiable: every finite script has it *)
 Theorem C01_finite_scripts_are_fair : forall k (l : list (list fault)), eventually_clean k (sc_of l).
@@ -214,6 +246,10 @@ Print Assumptions C01_redelivered_until_acked.
 Print Assumptions C01_guarded_run_is_run.
 Print Assumptions C01_redelivery_is_immediate.
 Print Assumptions C01_at_least_once_immediate.
+Print Assumptions C01_at_least_once_context_aware.
+Print Assumptions C01_delivery_context_is_live.
+Print Assumptions C01_live_contexts_change_nothing.
+Print Assumptions C01_dead_contexts_never_stop.
 Print Assumptions C01_never_lost.
 Print Assumptions C01_at_least_once.
 Print Assumptions C01_every_source_reaches_the_sink.
